@@ -106,6 +106,10 @@ func TestVerifC06Monc(t *testing.T) {
 					var v c06Doc
 					err := m.FindOne(ctx, env.Key(op[1]), &v, bson.D{{Key: "_id", Value: pk}})
 					res = c06Err(err)
+					// the cache was built with mongo.ErrNoDocuments as its errNotFound
+					if m.cache.IsNotFound(err) != (res == "notfound") {
+						res = "err:IsNotFound-disagrees-with-" + res
+					}
 					if err == nil {
 						res = fmt.Sprintf("val:r:%d:%d:%d", v.Id, v.V, v.A)
 					}
